@@ -35,6 +35,14 @@ pub trait Sim {
     fn page_size(&self) -> Option<usize> {
         None
     }
+
+    /// If true, the executor runs every segment on its own OS thread and
+    /// hands control between them at [`sched_point`]s (one thread runs at a
+    /// time, chosen by the simulator), so that interleavings *inside* items
+    /// are explored; otherwise items run to completion on the calling thread.
+    fn preemptive(&self) -> bool {
+        false
+    }
 }
 
 thread_local! {
@@ -84,12 +92,22 @@ pub fn choose(site: &'static str, n: u32) -> u32 {
     if n <= 1 {
         return 0;
     }
+    if on_segment_thread() {
+        return match rpc(Req::Choose(site, n)) {
+            Rep::Value(v) => v % n,
+            _ => 0,
+        };
+    }
     with_sim(|s| s.choose(site, n) % n).unwrap_or(0)
 }
 
 /// Reports an event to the simulator
 #[inline]
 pub fn event(site: &'static str, a: u64, b: u64) {
+    if on_segment_thread() {
+        rpc(Req::Event(site, a, b));
+        return;
+    }
     if installed() {
         with_sim(|s| s.event(site, a, b));
     }
@@ -103,12 +121,105 @@ pub fn probe(name: &'static str) {
 
 /// Simulated thread count, if a simulator is installed and provides one
 pub fn thread_count_override() -> Option<usize> {
+    if on_segment_thread() {
+        return match rpc(Req::ThreadCount) {
+            Rep::Count(c) => c,
+            _ => None,
+        };
+    }
     with_sim(|s| s.thread_count()).flatten()
 }
 
 /// Simulated page size, if a simulator is installed and provides one
 pub fn page_size_override() -> Option<usize> {
+    if on_segment_thread() {
+        return match rpc(Req::PageSize) {
+            Rep::Count(c) => c,
+            _ => None,
+        };
+    }
     with_sim(|s| s.page_size()).flatten()
+}
+
+////////////////////////////////////////////////////////////////////////////////
+// Preemptive mode: segments on their own OS threads, one running at a time
+
+use std::sync::{Arc, Condvar, Mutex};
+
+enum Req {
+    Yield,
+    Event(&'static str, u64, u64),
+    Choose(&'static str, u32),
+    ThreadCount,
+    PageSize,
+    ItemStart(usize),
+    ItemEnd(usize, bool),
+    Done,
+    Panicked(String),
+}
+
+enum Rep {
+    None,
+    Value(u32),
+    Count(Option<usize>),
+    Go,
+    Stop,
+}
+
+struct CtlState {
+    /// Which segment thread may run (`None`: the scheduler thread)
+    turn: Option<usize>,
+    req: Option<Req>,
+    rep: Option<Rep>,
+    /// Number of sched points the granted thread passes before yielding
+    countdown: u32,
+}
+
+struct Ctl {
+    m: Mutex<CtlState>,
+    cv: Condvar,
+}
+
+thread_local! {
+    static SEG: RefCell<Option<(Arc<Ctl>, usize)>> = const { RefCell::new(None) };
+    static SEG_ACTIVE: Cell<bool> = const { Cell::new(false) };
+    static COUNTDOWN: Cell<u32> = const { Cell::new(0) };
+}
+
+#[inline]
+fn on_segment_thread() -> bool {
+    SEG_ACTIVE.with(|a| a.get())
+}
+
+/// Posts a request to the scheduler thread and blocks until this segment
+/// thread is granted the turn again
+fn rpc(req: Req) -> Rep {
+    let Some((ctl, me)) = SEG.with(|s| s.borrow().clone()) else {
+        return Rep::None;
+    };
+    let mut st = ctl.m.lock().unwrap();
+    st.req = Some(req);
+    st.turn = None;
+    ctl.cv.notify_all();
+    while st.turn != Some(me) {
+        st = ctl.cv.wait(st).unwrap();
+    }
+    COUNTDOWN.with(|c| c.set(st.countdown));
+    st.rep.take().unwrap_or(Rep::None)
+}
+
+/// A point inside the code under test at which the simulator may switch to
+/// another worker (only in preemptive mode; free otherwise)
+#[inline]
+pub fn sched_point() {
+    if on_segment_thread() {
+        let c = COUNTDOWN.with(|c| c.get());
+        if c > 1 {
+            COUNTDOWN.with(|k| k.set(c - 1));
+        } else {
+            rpc(Req::Yield);
+        }
+    }
 }
 
 ////////////////////////////////////////////////////////////////////////////////
@@ -252,6 +363,14 @@ where
         split_ranges(0, n, &mut ranges);
         let width = thread_count_override().unwrap_or(1).max(1);
         event("exec_begin", n as u64, ranges.len() as u64);
+        if with_sim(|s| s.preemptive()).unwrap_or(false) {
+            return collect_preemptive(
+                self.items, &self.init, &self.f, &ranges, width,
+            )
+            .into_iter()
+            .flatten()
+            .collect();
+        }
 
         let mut items: Vec<Option<T>> =
             self.items.into_iter().map(Some).collect();
@@ -321,4 +440,202 @@ fn split_ranges(lo: usize, hi: usize, out: &mut Vec<(usize, usize)>) {
     } else if hi > lo {
         out.push((lo, hi));
     }
+}
+
+/// Preemptive execution of the segments (see [`Sim::preemptive`])
+fn collect_preemptive<T, INIT, F, S, R>(
+    items: Vec<T>,
+    init: &INIT,
+    f: &F,
+    ranges: &[(usize, usize)],
+    width: usize,
+) -> Vec<Option<R>>
+where
+    T: Send,
+    F: Fn(&mut S, T) -> R + Sync + Send,
+    INIT: Fn() -> S + Sync + Send,
+    R: Send + SimTry,
+{
+    let n = items.len();
+    let ctl = Arc::new(Ctl {
+        m: Mutex::new(CtlState {
+            turn: None,
+            req: None,
+            rep: None,
+            countdown: 0,
+        }),
+        cv: Condvar::new(),
+    });
+    let results: Mutex<Vec<Option<R>>> =
+        Mutex::new((0..n).map(|_| None).collect());
+    // hand each segment its own items
+    let mut items: Vec<Option<T>> = items.into_iter().map(Some).collect();
+    let mut seg_items: Vec<Option<Vec<(usize, T)>>> = ranges
+        .iter()
+        .map(|(lo, hi)| {
+            Some((*lo..*hi).map(|i| (i, items[i].take().unwrap())).collect())
+        })
+        .collect();
+    #[derive(Clone, Copy, PartialEq)]
+    enum St {
+        Pending,
+        Running,
+        Done,
+    }
+    let mut panicked: Option<String> = None;
+    let mut ran = 0u64;
+    let mut stop = false;
+    std::thread::scope(|scope| {
+        let mut st: Vec<St> = ranges.iter().map(|_| St::Pending).collect();
+        // the reply each blocked segment thread will receive when resumed
+        let mut replies: Vec<Option<Rep>> = ranges.iter().map(|_| None).collect();
+        loop {
+            let running = st.iter().filter(|s| **s == St::Running).count();
+            let cands: Vec<usize> = st
+                .iter()
+                .enumerate()
+                .filter(|(_, s)| match s {
+                    St::Running => true,
+                    St::Pending => running < width,
+                    St::Done => false,
+                })
+                .map(|(i, _)| i)
+                .collect();
+            if cands.is_empty() {
+                break;
+            }
+            let mut si = cands[choose("next", cands.len() as u32) as usize];
+            if st[si] == St::Pending {
+                event("seg_init", si as u64, ranges[si].0 as u64);
+                st[si] = St::Running;
+                let my_items = seg_items[si].take().unwrap();
+                let ctl2 = ctl.clone();
+                let results = &results;
+                let body = move || {
+                    SEG.with(|s| *s.borrow_mut() = Some((ctl2.clone(), si)));
+                    SEG_ACTIVE.with(|a| a.set(true));
+                    // wait for the first grant
+                    {
+                        let mut g = ctl2.m.lock().unwrap();
+                        while g.turn != Some(si) {
+                            g = ctl2.cv.wait(g).unwrap();
+                        }
+                        COUNTDOWN.with(|c| c.set(g.countdown));
+                        g.rep.take();
+                    }
+                    let r = std::panic::catch_unwind(
+                        std::panic::AssertUnwindSafe(|| {
+                            let mut state = init();
+                            for (idx, item) in my_items {
+                                if let Rep::Stop = rpc(Req::ItemStart(idx)) {
+                                    break;
+                                }
+                                let r = f(&mut state, item);
+                                let failed = r.is_fail();
+                                results.lock().unwrap()[idx] = Some(r);
+                                rpc(Req::ItemEnd(idx, failed));
+                                if failed {
+                                    break;
+                                }
+                            }
+                        }),
+                    );
+                    let last = match r {
+                        Ok(()) => Req::Done,
+                        Err(e) => Req::Panicked(
+                            e.downcast_ref::<&str>()
+                                .map(|s| s.to_string())
+                                .or_else(|| e.downcast_ref::<String>().cloned())
+                                .unwrap_or_else(|| "<panic>".to_string()),
+                        ),
+                    };
+                    // final message: do not wait for another turn
+                    let mut g = ctl2.m.lock().unwrap();
+                    g.req = Some(last);
+                    g.turn = None;
+                    ctl2.cv.notify_all();
+                    SEG_ACTIVE.with(|a| a.set(false));
+                };
+                std::thread::Builder::new()
+                    .stack_size(32 << 20)
+                    .spawn_scoped(scope, body)
+                    .expect("spawn segment thread");
+            }
+            // run `si` until it needs a scheduling decision
+            loop {
+                let k = 1 + (1u32 << choose("preempt_log2", 13))
+                    + choose("preempt_jitter", 7);
+                let req = {
+                    let mut g = ctl.m.lock().unwrap();
+                    g.rep = replies[si].take();
+                    g.countdown = k;
+                    g.turn = Some(si);
+                    ctl.cv.notify_all();
+                    while g.turn.is_some() {
+                        g = ctl.cv.wait(g).unwrap();
+                    }
+                    g.req.take().unwrap_or(Req::Yield)
+                };
+                match req {
+                    Req::Event(s, a, b) => {
+                        event(s, a, b);
+                        replies[si] = Some(Rep::None);
+                        continue;
+                    }
+                    Req::Choose(s, m) => {
+                        replies[si] = Some(Rep::Value(choose(s, m)));
+                        continue;
+                    }
+                    Req::ThreadCount => {
+                        replies[si] = Some(Rep::Count(thread_count_override()));
+                        continue;
+                    }
+                    Req::PageSize => {
+                        replies[si] = Some(Rep::Count(page_size_override()));
+                        continue;
+                    }
+                    Req::Yield => {
+                        event("preempt", si as u64, 0);
+                        replies[si] = Some(Rep::None);
+                        break;
+                    }
+                    Req::ItemStart(idx) => {
+                        if stop && choose("sees_stop", 2) == 0 {
+                            event("stop_seen", si as u64, 0);
+                            replies[si] = Some(Rep::Stop);
+                        } else {
+                            event("item_start", idx as u64, si as u64);
+                            replies[si] = Some(Rep::Go);
+                        }
+                        break;
+                    }
+                    Req::ItemEnd(idx, failed) => {
+                        ran += 1;
+                        event("item_end", idx as u64, failed as u64);
+                        if failed {
+                            stop = true;
+                        }
+                        replies[si] = Some(Rep::None);
+                        break;
+                    }
+                    Req::Done => {
+                        st[si] = St::Done;
+                        break;
+                    }
+                    Req::Panicked(msg) => {
+                        st[si] = St::Done;
+                        panicked.get_or_insert(msg);
+                        stop = true;
+                        break;
+                    }
+                }
+            }
+            let _ = &mut si;
+        }
+    });
+    event("exec_end", ran, stop as u64);
+    if let Some(msg) = panicked {
+        panic!("{msg}");
+    }
+    results.into_inner().unwrap()
 }
